@@ -825,6 +825,14 @@ func (c *SpecCtx) evalCall(x *ast.CallExpr) *SV {
 			return c.eval(x.Args[0])
 		}
 		return c.inState(c.old).eval(x.Args[0])
+	case "atEntry":
+		// atEntry(e): e in the entry state of the function under verification - also inside the precondition of a
+		// callee, where it lets the callee demand something relative to ITS CALLER's entry ("this value was made
+		// during the call that passes it")
+		if ex.entry == nil {
+			return c.eval(x.Args[0])
+		}
+		return c.inState(ex.entry).eval(x.Args[0])
 	case "sinceLock":
 		// sinceLock(e[, k]): e in the current state with old(..) bound to the state right after
 		// the k-th last monitor Lock (two-state predicates written with old() are reused per critical section)
